@@ -456,6 +456,12 @@ def finish(prop, known, new, total) -> int:
             v["replay_verified_in_fresh_interpreter"] = ok
             print(f"  replay in a fresh interpreter reproduces the recorded run exactly: {'yes' if ok else 'NO'}")
     if total["harness_errors"]:
+        try:
+            with open(os.path.join(tempfile.gettempdir(), "verif-harness-errors.log"), "a") as f:
+                f.write(json.dumps({"t": time.time(), "prop": prop, "repo": repo_root(), "new": [v["signature"] for v in new],
+                                    "errors": total["harness_errors"][:10]}, default=repr) + "\n")
+        except OSError:
+            pass
         for h in total["harness_errors"][:5]:
             print(f"HARNESS-ERROR property={prop} run={h.get('run')} seed={h.get('seed')}: {str(h.get('error'))[-600:]}", file=sys.stdout)
     if new:
